@@ -25,6 +25,7 @@ import (
 
 	"golang.org/x/sys/unix"
 
+	"github.com/panjf2000/gnet/v2/internal/vhook"
 	errorx "github.com/panjf2000/gnet/v2/pkg/errors"
 	"github.com/panjf2000/gnet/v2/pkg/logging"
 	"github.com/panjf2000/gnet/v2/pkg/netpoll"
@@ -65,6 +66,7 @@ func (ln *listener) open() (err error) {
 		default:
 			err = errorx.ErrUnsupportedProtocol
 		}
+		vhook.Sys("ln.open", ln, ln.fd, 0, err)
 	})
 	return
 }
@@ -73,6 +75,7 @@ func (ln *listener) close() {
 	ln.closeOnce.Do(func() {
 		if ln.fd > 0 {
 			logging.Error(os.NewSyscallError("close", unix.Close(ln.fd)))
+			vhook.Sys("ln.close", ln, ln.fd, 0, nil)
 		}
 		ln.fd = -1
 		if ln.network == "unix" {
